@@ -294,6 +294,8 @@ def materialize(case, rng_for_members=None):
             plain = b"".join(b"# comment line %d\n" % k for k in range(ncomm)) + plain
         r = random.Random(case.get("member_seed", 0) * 31 + i)
         files[p] = fmt.compress(inp["containers"][i], plain, rng=r, members=inp["members"][i])
+    for p, text in (case.get("aux_files") or {}).items():
+        files[p] = text.encode("ascii")
     return files
 
 
@@ -367,6 +369,7 @@ def default_profile():
         p_huge=0.004,
         p_interleaved_redirect=0.3,
         p_duplicate_adapter=0.03,
+        p_adapter_file=0.12,  # (only when adapters are named) give one group of adapters as file:adapters.fasta
         p_unknown_name=0.0,  # an adapter literally named 'unknown' (legal with --discard-untrimmed/--untrimmed-output)
         p_comments_two_files=1.0,  # (was 0 while this was known finding KF-C06-3)
         p_mixed_pair=0.0,  # -o x.fastq -p y.fasta: only the check that owns KF-C06-2 generates it
@@ -435,8 +438,20 @@ def gen_case(rng, profile=None):
             nm2 = f"bd{len(ad2)}" if named else None
             s2_ = rand_seq(rng, 14)
             ad2.append({"end": "a", "spec": (f"{nm2}=" if nm2 else "") + s2_, "name": nm2, "kind": "back", "seqs": [("back", s2_)]})
+    aux_files = {}
+    in_file = set()
+    if named and not pair_adapters and rng.random() < P["p_adapter_file"]:
+        # the usual way to give many barcodes: -a file:adapters.fasta (names = FASTA headers)
+        end_ = rng.choice("ag")
+        group = [a for a in ad1 + decoys if a["end"] == end_ and a["name"] and ";" not in a["spec"] and a["kind"] != "linked"]
+        if group:
+            body = "".join(f">{a['name']}\n{a['spec'].split('=', 1)[1]}\n" for a in group)
+            aux_files[f"{SIMFS}adapters_{end_}.fasta"] = body
+            in_file = {id(a) for a in group}
+            opts.append(["-" + end_, f"file:{SIMFS}adapters_{end_}.fasta"])
     for a in ad1 + decoys:
-        opts.append(["-" + a["end"], a["spec"]])
+        if id(a) not in in_file:
+            opts.append(["-" + a["end"], a["spec"]])
     for a in ad2:
         opts.append(["-" + a["end"].upper(), a["spec"]])
     has_adapters = bool(ad1 or ad2)
@@ -687,9 +702,12 @@ def gen_case(rng, profile=None):
         for g in opts:
             if g[0] in ("-a", "-g", "-b") and g[1].startswith(old + "="):
                 g[1] = "unknown=" + g[1][len(old) + 1 :]
+        for pth in list(aux_files):
+            aux_files[pth] = aux_files[pth].replace(f">{old}\n", ">unknown\n")
     case = {
         "fmt": "fastq" if fastq else "fasta",
         "paired": paired,
+        "aux_files": aux_files,
         "records": records,
         "input": inp,
         "member_seed": rng.randrange(1 << 30),
